@@ -263,9 +263,187 @@ pub struct C10 {
     pub mib: u64,
     /// solver-log streams instead of the six streaming formats
     pub log: bool,
+    /// record consumers working directly on a DeferredReader instead of parsers
+    pub raw: bool,
 }
 
 impl C10 {
+    /// A consumer that reads records from a bare DeferredReader through ONE family of look-ahead calls
+    /// (the parsers only ever use request_byte / request_byte_at_offset): 4 styles x 4 chunk sizes x
+    /// 3 read sizes (1 byte, a full chunk, exactly one record per read).
+    fn case_raw(&mut self, idx: u64, _rng: &mut Rng, rep: &mut Report) {
+        let style = idx % 4;
+        let chunk = [64usize, 4096, 16384, 65536][((idx / 4) % 4) as usize];
+        let read_mode = (idx / 16) % 3;
+        let target = self.mib << 20;
+        // styles 0..2: fixed 16-byte records; style 3: length-prefixed records of 1..=200 bytes
+        let mut emitted = 0u64;
+        let mut k = 0u64;
+        let one_per_read = read_mode == 2;
+        let refill = move |out: &mut Vec<u8>| -> bool {
+            loop {
+                if emitted >= target {
+                    return false;
+                }
+                k += 1;
+                if style == 3 {
+                    let len = 1 + (k * 7919 % 200) as usize;
+                    out.push(len as u8);
+                    out.extend(std::iter::repeat(b'a' + (k % 26) as u8).take(len));
+                    emitted += 1 + len as u64;
+                } else {
+                    out.extend_from_slice(format!("R{:014}\n", k).as_bytes());
+                    emitted += 16;
+                }
+                if one_per_read || out.len() + 256 >= 4096 {
+                    return true;
+                }
+            }
+        };
+        let read_size = match read_mode {
+            0 => 1,
+            1 => chunk,
+            _ => usize::MAX, // one record per refill of the source's staging buffer = per read
+        };
+        let calls = Rc::new(Cell::new(0u64));
+        let src = GenSrc {
+            refill,
+            pending: Vec::with_capacity(8192),
+            pos: 0,
+            read_size,
+            delivered: 0,
+            done: false,
+            calls: calls.clone(),
+        };
+        let win = Window::open();
+        let (records, bad) = sut(|| {
+            let mut r = DeferredReader::from_read(src);
+            r.set_chunk_size(chunk);
+            let mut n = 0u64;
+            let mut bad = String::new();
+            loop {
+                match style {
+                    0 => {
+                        let b = r.request(16);
+                        if b.len() < 16 {
+                            if !b.is_empty() {
+                                bad = format!("partial record of {} bytes at the end", b.len());
+                            }
+                            break;
+                        }
+                        if b[0] != b'R' || b[15] != b'\n' {
+                            bad = format!("record {} damaged", n);
+                            break;
+                        }
+                        r.advance(16);
+                    }
+                    1 => {
+                        match r.request_byte_at_offset(15) {
+                            None => {
+                                if r.buf_len() != 0 {
+                                    bad = format!("partial record of {} bytes at the end", r.buf_len());
+                                }
+                                break;
+                            }
+                            Some(b'\n') => {}
+                            Some(_) => {
+                                bad = format!("record {} damaged", n);
+                                break;
+                            }
+                        }
+                        r.advance(16);
+                    }
+                    2 => {
+                        while r.buf_len() < 16 {
+                            if !r.request_more() {
+                                break;
+                            }
+                        }
+                        if r.buf_len() < 16 {
+                            if r.buf_len() != 0 {
+                                bad = format!("partial record of {} bytes at the end", r.buf_len());
+                            }
+                            break;
+                        }
+                        let b = r.advance_with_buf(16);
+                        if b[0] != b'R' || b[15] != b'\n' {
+                            bad = format!("record {} damaged", n);
+                            break;
+                        }
+                    }
+                    _ => {
+                        let Some(len) = r.request_byte() else { break };
+                        let len = len as usize;
+                        let b = r.request(1 + len);
+                        if b.len() < 1 + len {
+                            bad = format!("record {} cut short", n);
+                            break;
+                        }
+                        if b[1] != b[len] {
+                            bad = format!("record {} damaged", n);
+                            break;
+                        }
+                        r.advance(1 + len);
+                    }
+                }
+                n += 1;
+            }
+            (n, bad)
+        });
+        let peak = win.peak();
+        let max_item = if style == 3 { 201 } else { 16 };
+        let bound = 8 * chunk + 4 * max_item + (16 << 10);
+        rep.inc("streams");
+        rep.inc("raw_streams");
+        rep.inc(&format!(
+            "raw_style:{}",
+            ["request+advance", "request_byte_at_offset+advance", "request_more+advance_with_buf", "length_prefixed:request_byte+request+advance"]
+                [style as usize]
+        ));
+        rep.count("items", records);
+        rep.count("bytes_streamed", target);
+        rep.count("read_calls", calls.get());
+        rep.max("peak_live_bytes", peak as u64);
+        if !bad.is_empty() {
+            // a damaged record is a C02 matter; nothing was measured
+            rep.inc("harness_stream_rejected");
+            rep.extra.insert(
+                format!("stream_rejected_{}", rep.cur),
+                J::obj().set("format", J::s("raw records")).set("error", J::s(bad)),
+            );
+            return;
+        }
+        if (target as usize) >= 100 * bound {
+            rep.inc("streams_100x_bound");
+        }
+        rep.nontrivial(H::new().u(78).u(style).u(chunk as u64).u(read_mode).u(target).get());
+        rep.sample(|| {
+            J::obj()
+                .set("format", J::s("raw records"))
+                .set("style", J::U(style))
+                .set("chunk", J::u(chunk))
+                .set("read_mode", J::U(read_mode))
+                .set("bytes", J::U(target))
+                .set("records", J::U(records))
+                .set("peak_live_bytes", J::u(peak))
+                .set("bound", J::u(bound))
+        });
+        if peak > bound {
+            rep.violation(
+                "Raw:peak",
+                J::obj()
+                    .set("format", J::s("raw records on a bare DeferredReader"))
+                    .set("style", J::U(style))
+                    .set("chunk", J::u(chunk))
+                    .set("read_mode", J::U(read_mode))
+                    .set("bytes_streamed", J::U(target))
+                    .set("records", J::U(records))
+                    .set("peak_live_bytes", J::u(peak))
+                    .set("bound_8chunk_4item_16k", J::u(bound)),
+            );
+        }
+    }
+
     /// A solver log of `mib` MiB whose result (status + a short assignment) is tiny: the bytes are comment
     /// lines, lines to be ignored and blank lines. 3 line mixes x 4 chunk sizes x 4 read sizes.
     fn case_log(&mut self, idx: u64, rng: &mut Rng, rep: &mut Report) {
@@ -604,6 +782,9 @@ impl Monitor for C10 {
     fn case(&mut self, idx: u64, rng: &mut Rng, rep: &mut Report) {
         if self.log {
             return self.case_log(idx, rng, rep);
+        }
+        if self.raw {
+            return self.case_raw(idx, rng, rep);
         }
         let fmt = FMTS[(idx % 6) as usize];
         let chunk = [64usize, 4096, 16384, 65536][((idx / 6) % 4) as usize];
